@@ -119,6 +119,23 @@ def line_number_shape(ck, F):
     if b is None:
         return
     loops = b.natural_loops()
+    # two-phase form: `let end = start + line[start..].chars().take_while(|c| c.is_ascii_digit()).count()`: the converted
+    # slice ends at the first character that is not a digit by construction
+    from lib import ascii_digit_run
+    form_b = False
+    for c in [c for c in b.calls() if c.callee.endswith("<impl str>::parse")]:
+        sl = [x for x in expr_calls(b.expr(c.args[0])) if x[1].endswith("for str>::index")]
+        for x in sl:
+            rng = strip_expr(x[2][1]) if len(x[2]) > 1 else None
+            if rng is not None and rng[0] == "agg" and str(rng[1]).endswith("::Range") and len(rng[3]) == 2:
+                run = ascii_digit_run(F, b, rng[3][1])
+                if run is not None and show(run[0]) == show(strip_expr(rng[3][0])):
+                    form_b = True
+    if form_b and not loops:
+        ck.ok("C14:SHAPE:line-number-ends-at-first-non-digit", "listing shape",
+              "the converted slice is [start, start + count of leading ASCII digits): it ends at the first non-digit")
+        ck.ok("C14:SHAPE:line-number-is-contiguous-slice", "listing shape", "the converted text is a slice of the line")
+        return
     ck.floor("C14.scan loops of parse_line_number", len(loops), 1)
     bad = []
     n = 0
